@@ -74,7 +74,9 @@ STRING_POOL = [" padded ", "tab\tinside", "a#b", "\u00fcn\u00efc\u00f6de \u4e2d\
                'Say \\"hello\\"', 'a \\"q\\" b', "it\\'s", 'ends with quote\\"', "(not an expression", "50% [approx]",
                # strings that look like numbers (the same keyword may also carry the number itself), strings wrapped in the
                # other quote character
-               "2", "10", "2.5", "007", "1e3", "'single wrapped'", "'x'"]
+               "2", "10", "2.5", "007", "1e3", "'single wrapped'", "'x'",
+               # line separators other than LF inside a value
+               "cr\r\nlf", "ls\u2028sep", "ff\x0cfeed", "nel\x85x"]
 # values for key-value blocks, CONFIG, repeated string keywords and PROJECTION lines (no line breaks: PROJECTION
 # strings and CONFIG values are single-line by nature)
 KV_POOL = ["plain", " padded ", "a#b", "with 'apos'", "'single wrapped'", "'x'", "2", "2.0", "10", "UPPER lower", "x=1 y=2", "\u00fcn\u00efc\u00f6de \u4e2d\u6587",
@@ -115,8 +117,14 @@ def vary_numbers(b, rng, prob=0.25):
             vary_numbers(it, rng, prob)
         elif it.kind == "attr" and not it.repeated and it.shape.startswith("number") and len(it.tokens) == 2 \
                 and it.tokens[1].kind == "num" and isinstance(it.intended, int) and not isinstance(it.intended, bool) and rng.random() < prob:
-            it.tokens = [it.tokens[0], docs.T("num", "%d.0" % it.intended)]
-            it.intended = float(it.intended)
+            if rng.random() < 0.35:
+                # large / small magnitudes and exponent spellings (repr writes them back as 1e+16, 1e-05)
+                sp = rng.choice(["1e16", "2.5e20", "1E-5", "1.5e+3", "25000000000000000.0", "-3e17"])
+                it.tokens = [it.tokens[0], docs.T("num", sp)]
+                it.intended = float(sp)
+            else:
+                it.tokens = [it.tokens[0], docs.T("num", "%d.0" % it.intended)]
+                it.intended = float(it.intended)
 
 
 def add_contract_cases(doc, rng):
